@@ -344,3 +344,12 @@ Example C20_nonvacuous_paged :
 Proof.
   split; [intros f [H|[H|[H|[H|[H|[]]]]]]; congruence|]. split; vm_compute; [lia|reflexivity].
 Qed.
+
+(* write_file_cas on a key that holds "old", the tag read (one GET), then the conditional PUT answered with a transient
+   error AFTER it landed: the error surfaces at once (no second PUT) and the object holds the new content *)
+Example C20_nonvacuous_cas :
+  s3_step_f gen_max_retries 2 (lit "p") [(lit "p/k", lit "old")] (WriteCas (lit "k") (lit "new")) [None; Some (FAfter, slow)]
+  = ([(lit "p/k", lit "new")], [], inr slow)
+  /\ s3_step_f gen_max_retries 2 (lit "p") [(lit "p/k", lit "old")] (WriteCas (lit "k") (lit "new")) [None; Some (FBefore, slow)]
+  = ([(lit "p/k", lit "old")], [], inr slow).
+Proof. split; vm_compute; reflexivity. Qed.
